@@ -1,0 +1,16 @@
+//go:build verif
+
+package client
+
+import "github.com/arm-doe/sts"
+
+// VerifHashFiles runs the scan's hashing step (hash -> hashFiles) on the given files, as
+// scan() does after the store returned them, and returns (name, size, hash) of each.
+func (broker *Broker) VerifHashFiles(files []sts.File) (out []sts.Hashed) {
+	wrapped := make([]sts.Hashed, len(files))
+	for i, f := range files {
+		wrapped[i] = &hashFile{File: f}
+	}
+	_, _ = broker.hash(wrapped, broker.Conf.Threads, int64(broker.Conf.PayloadSize))
+	return wrapped
+}
